@@ -3,6 +3,7 @@ package main
 import (
 	"fmt"
 	"go/constant"
+	"go/token"
 	"go/types"
 	"math/big"
 	"sort"
@@ -45,6 +46,7 @@ type Universe struct {
 	fnOrder  []string
 	globals  map[string]string // global name -> sort
 	extra    []string          // extra declarations (late)
+	emit     func(string)      // sink for ground axiom instances (set by the active encoder)
 	impls    map[string]types.Type
 }
 
@@ -69,6 +71,7 @@ type fnCtor struct {
 	Fn    *ssa.Function
 	Caps  []string // capture sorts
 	CapTs []types.Type
+	ByVal []bool // capture i is modelled by value (the captured cell is never written after creation)
 }
 
 func newUniverse(P *Program) *Universe {
@@ -225,7 +228,22 @@ func (U *Universe) tagOf(t types.Type) int {
 }
 
 func tagSym(k string) string {
-	return "tag." + strings.NewReplacer(" ", "", "{", "(", "}", ")", ";", ",").Replace(k)
+	var b strings.Builder
+	b.WriteString("tag.")
+	for _, r := range k {
+		switch {
+		case r >= 'a' && r <= 'z', r >= 'A' && r <= 'Z', r >= '0' && r <= '9', strings.ContainsRune("~!$%^&*_-+=<>.?/", r):
+			b.WriteRune(r)
+		case r == '[' || r == '{' || r == '(':
+			b.WriteRune('<')
+		case r == ']' || r == '}' || r == ')':
+			b.WriteRune('>')
+		case r == ' ':
+		default:
+			b.WriteRune('_')
+		}
+	}
+	return b.String()
 }
 
 func (U *Universe) typeKey(t types.Type) string {
@@ -309,12 +327,24 @@ func (U *Universe) fnCtorOf(f *ssa.Function) *fnCtor {
 		return c
 	}
 	c := &fnCtor{Key: k, Sym: "fn." + k, Fn: f}
-	for _, fv := range f.FreeVars {
+	for i, fv := range f.FreeVars {
+		if captureByValue(f, i) {
+			el := fv.Type().Underlying().(*types.Pointer).Elem()
+			c.Caps = append(c.Caps, U.sortOf(el))
+			c.CapTs = append(c.CapTs, el)
+			c.ByVal = append(c.ByVal, true)
+			continue
+		}
 		c.Caps = append(c.Caps, U.sortOf(fv.Type()))
 		c.CapTs = append(c.CapTs, fv.Type())
+		c.ByVal = append(c.ByVal, false)
 	}
 	U.fnCtors[k] = c
 	U.fnOrder = append(U.fnOrder, k)
+	U.Sigs[c.Sym] = &Sig{Name: c.Sym, Args: c.Caps, Res: "Fn"}
+	for i, s := range c.Caps {
+		U.Sigs[fmt.Sprintf("%s.c%d", c.Sym, i)] = &Sig{Name: fmt.Sprintf("%s.c%d", c.Sym, i), Args: []string{"Fn"}, Res: s}
+	}
 	return c
 }
 
@@ -493,6 +523,9 @@ func (U *Universe) emitDeclsWith(bundleDecls string) string {
 			phase = "base"
 			continue
 		}
+		if c.Head() == "echo" {
+			continue
+		}
 		if phase == "base" {
 			b.WriteString(c.String())
 			b.WriteString("\n")
@@ -560,7 +593,6 @@ func (U *Universe) emitDeclsWith(bundleDecls string) string {
 		fmt.Fprintf(&b, "(declare-fun %[1]s.snoc (%[1]s %[2]s) %[1]s)\n(declare-fun %[1]s.cat (%[1]s %[1]s) %[1]s)\n(declare-fun %[1]s.sub (%[1]s Int Int) %[1]s)\n", s, e)
 		fmt.Fprintf(&b, "(assert (= %[1]s.nil %[1]s.empty))\n(assert (= (%[1]s.len %[1]s.empty) 0))\n", s)
 		// sequence axioms (A-SEQ), with patterns
-		fmt.Fprintf(&b, "(assert (forall ((x %[1]s)) (! (>= (%[1]s.len x) 0) :pattern ((%[1]s.len x)))))\n", s)
 		fmt.Fprintf(&b, "(assert (forall ((x %[1]s) (v %[2]s)) (! (and (= (%[1]s.len (%[1]s.snoc x v)) (+ (%[1]s.len x) 1)) (= (%[1]s.at (%[1]s.snoc x v) (%[1]s.len x)) v)) :pattern ((%[1]s.snoc x v)))))\n", s, e)
 		fmt.Fprintf(&b, "(assert (forall ((x %[1]s) (v %[2]s) (i Int)) (! (=> (and (<= 0 i) (< i (%[1]s.len x))) (= (%[1]s.at (%[1]s.snoc x v) i) (%[1]s.at x i))) :pattern ((%[1]s.at (%[1]s.snoc x v) i)))))\n", s, e)
 		fmt.Fprintf(&b, "(assert (forall ((x %[1]s) (y %[1]s)) (! (= (%[1]s.len (%[1]s.cat x y)) (+ (%[1]s.len x) (%[1]s.len y))) :pattern ((%[1]s.cat x y)))))\n", s)
@@ -598,7 +630,6 @@ func (U *Universe) emitDeclsWith(bundleDecls string) string {
 		base := strings.TrimPrefix(ts, "tag.")
 		fmt.Fprintf(&b, "(define-fun %s () Int %d)\n", ts, id)
 		fmt.Fprintf(&b, "(declare-fun box.%s (%s) Any)\n(declare-fun unbox.%s (Any) %s)\n", base, srt, base, srt)
-		fmt.Fprintf(&b, "(assert (forall ((x %[2]s)) (! (and (= (dyn (box.%[1]s x)) %[3]s) (= (unbox.%[1]s (box.%[1]s x)) x)) :pattern ((box.%[1]s x)))))\n", base, srt, ts)
 		fmt.Fprintf(&b, "(assert (= (tagkind %s) %d))\n", ts, goKindOf(t))
 		fmt.Fprintf(&b, "(assert (= (tagptrdepth %s) %d))\n", ts, ptrDepth(t))
 	}
@@ -752,4 +783,139 @@ func ptrDepth(t types.Type) int {
 		n++
 		t = p.Elem()
 	}
+}
+
+// preRegister makes the symbols the spec prelude may mention exist
+// independently of which functions are encoded: heaps and embedded-struct
+// refs of every named struct of the two packages, and type tags of the types
+// that flow through interfaces.
+func (U *Universe) preRegister() {
+	for _, b := range []types.Type{types.Typ[types.Bool], types.Typ[types.Int], types.Typ[types.Int64], types.Typ[types.Uint64],
+		types.Typ[types.Float32], types.Typ[types.Float64], types.Typ[types.String], types.NewSlice(types.Typ[types.Byte]),
+		types.NewSlice(types.Universe.Lookup("any").Type())} {
+		U.tagOf(b)
+	}
+	for _, p := range []*types.Package{U.P.Grammar.Pkg, U.P.Bexpr.Pkg} {
+		names := p.Scope().Names()
+		sort.Strings(names)
+		for _, n := range names {
+			tn, ok := p.Scope().Lookup(n).(*types.TypeName)
+			if !ok {
+				continue
+			}
+			named, ok := tn.Type().(*types.Named)
+			if !ok {
+				continue
+			}
+			if _, isI := named.Underlying().(*types.Interface); isI {
+				U.impls[namedKey(named)] = named
+				continue
+			}
+			if _, isSig := named.Underlying().(*types.Signature); isSig {
+				continue
+			}
+			U.tagOf(named)
+			st, ok := named.Underlying().(*types.Struct)
+			if !ok {
+				continue
+			}
+			U.tagOf(types.NewPointer(named))
+			U.sortOf(named)
+			for i := 0; i < st.NumFields(); i++ {
+				f := st.Field(i)
+				if _, isS := types.Unalias(f.Type()).Underlying().(*types.Struct); isS && U.sortOf(f.Type()) != "RV" {
+					U.embRef("0", named, f)
+				} else {
+					U.fieldHeap(named, f)
+				}
+			}
+		}
+	}
+	if o := U.P.Bexpr.Pkg.Scope().Lookup("Option"); o != nil {
+		U.sliceSort(o.Type())
+	}
+	U.sliceSort(types.Typ[types.String])
+	U.sliceSort(types.Universe.Lookup("any").Type())
+	// json.Number flows through interfaces in evaluateMatchExpression
+	for _, imp := range U.P.Bexpr.Pkg.Imports() {
+		if imp.Path() == "encoding/json" {
+			if o := imp.Scope().Lookup("Number"); o != nil {
+				U.tagOf(o.Type())
+			}
+		}
+		if imp.Path() == "regexp" {
+			if o := imp.Scope().Lookup("Regexp"); o != nil {
+				U.tagOf(types.NewPointer(o.Type()))
+			}
+		}
+	}
+}
+
+// captureByValue reports whether free variable i of closure f can be modelled
+// as captured by value: inside f it is only loaded from, and in the parent
+// the bound cell is an Alloc that is written exactly once (before the
+// closure is made) and otherwise only bound to closures of f.
+func captureByValue(f *ssa.Function, i int) bool {
+	fv := f.FreeVars[i]
+	if _, ok := fv.Type().Underlying().(*types.Pointer); !ok {
+		return false
+	}
+	for _, r := range *fv.Referrers() {
+		u, ok := r.(*ssa.UnOp)
+		if !ok || u.Op != token.MUL {
+			return false
+		}
+	}
+	parent := f.Parent()
+	if parent == nil {
+		return false
+	}
+	found := false
+	for _, b := range parent.Blocks {
+		for _, in := range b.Instrs {
+			mc, ok := in.(*ssa.MakeClosure)
+			if !ok || mc.Fn != f {
+				continue
+			}
+			found = true
+			al, ok := mc.Bindings[i].(*ssa.Alloc)
+			if !ok {
+				return false
+			}
+			stores := 0
+			for _, r := range *al.Referrers() {
+				switch r := r.(type) {
+				case *ssa.Store:
+					if r.Addr != al || r.Block() != mc.Block() {
+						return false
+					}
+					stores++
+				case *ssa.MakeClosure:
+					if r.Fn != f {
+						return false
+					}
+				case *ssa.DebugRef:
+				default:
+					return false
+				}
+			}
+			if stores > 1 {
+				return false
+			}
+		}
+	}
+	return found
+}
+
+func (U *Universe) sideFact(s string) {
+	if U.emit != nil && !strings.Contains(s, "q!") {
+		U.emit(s)
+	}
+}
+
+// boxTerm builds (box.T x) and emits the ground instances of the boxing axioms.
+func (U *Universe) boxTerm(t types.Type, x string) string {
+	b := fmt.Sprintf("(%s %s)", U.boxSym(t), x)
+	U.sideFact(fmt.Sprintf("(and (= (dyn %s) %s) (= (%s %s) %s) (inv.Any %s))", b, tagSym(U.typeKey(t)), U.unboxSym(t), b, x, b))
+	return b
 }
